@@ -16,6 +16,7 @@ import (
 	"os"
 	"path/filepath"
 	"runtime/debug"
+	"sort"
 	"strings"
 	"testing"
 	"time"
@@ -99,6 +100,31 @@ func validRuleSetDoc(t *rapid.T) map[string]any {
 			execute = []any{map[string]any{"authenticator": "anon", "config": map[string]any{"subject": "x"}}}
 		}
 
+		// rule-level overrides of the richer mechanisms (every member is a target of the mutations)
+		switch rapid.IntRange(0, 5).Draw(t, "richAuthenticator") {
+		case 0:
+			execute = append([]any{map[string]any{"authenticator": "jwt", "config": map[string]any{"assertions": map[string]any{
+				"issuers": []any{"https://issuer.example.com"}, "audience": []any{"api"}, "allowed_algorithms": []any{"ES256"}, "validity_leeway": "5s",
+				"scopes": map[string]any{"matching_strategy": rapid.SampledFrom([]string{"exact", "hierarchic", "wildcard"}).Draw(t, "strategy"), "values": []any{"read", "a.b"}},
+			}, "cache_ttl": "1m", "allow_fallback_on_error": true}}}, execute...)
+		case 1:
+			execute = append([]any{map[string]any{"authenticator": "intro", "config": map[string]any{"assertions": map[string]any{
+				"scopes": []any{"read", "write"}, "audience": []any{"api"}}, "cache_ttl": "30s"}}}, execute...)
+		case 2:
+			execute = append([]any{map[string]any{"authenticator": "gen", "config": map[string]any{"cache_ttl": "10s", "allow_fallback_on_error": false,
+				"session_lifespan": map[string]any{"active": "active", "issued_at": "iat", "not_after": "exp", "time_format": "2006-01-02", "validity_leeway": "2s"}}}}, execute...)
+		}
+
+		switch rapid.IntRange(0, 5).Draw(t, "richSubjectHandler") {
+		case 0:
+			execute = append(execute, map[string]any{"authorizer": "remote", "config": map[string]any{"payload": `{"s":"{{ .Subject.ID }}"}`,
+				"values": map[string]any{"a": "b", "c": "{{ .Request.Method }}"}, "expressions": []any{map[string]any{"expression": "Payload.ok == true", "message": "no"}},
+				"forward_response_headers_to_upstream": []any{"X-A"}, "cache_ttl": "5s"}})
+		case 1:
+			execute = append(execute, map[string]any{"contextualizer": "ctx", "config": map[string]any{"payload": "x", "values": map[string]any{"a": "b"},
+				"forward_headers": []any{"X-T"}, "forward_cookies": []any{"c"}, "cache_ttl": "5s", "continue_pipeline_on_error": true}})
+		}
+
 		if rapid.Bool().Draw(t, "withAuthorizer") {
 			execute = append(execute, map[string]any{"authorizer": "cel", "if": "Request.Method == 'GET'",
 				"config": map[string]any{"expressions": []any{map[string]any{"expression": "true"}}}})
@@ -106,6 +132,11 @@ func validRuleSetDoc(t *rapid.T) map[string]any {
 
 		if rapid.Bool().Draw(t, "withFinalizer") {
 			execute = append(execute, map[string]any{"finalizer": "hdr", "config": map[string]any{"headers": map[string]any{"X-A": "b"}}})
+		}
+
+		if rapid.IntRange(0, 4).Draw(t, "richFinalizer") == 0 {
+			execute = append(execute, map[string]any{"finalizer": "cc", "config": map[string]any{"scopes": []any{"a", "b"}, "cache_ttl": "1m",
+				"header": map[string]any{"name": "X-Token", "scheme": "Bearer"}}})
 		}
 
 		r := map[string]any{"id": fmt.Sprintf("rule%d", i), "match": match, "execute": execute}
@@ -131,6 +162,7 @@ type nodeRef struct {
 	set func(v any)
 	del func()
 	get any
+	key string // member name, if the node is a member of a mapping
 }
 
 func collect(v any, set func(any), del func(), out *[]nodeRef) {
@@ -138,9 +170,18 @@ func collect(v any, set func(any), del func(), out *[]nodeRef) {
 
 	switch x := v.(type) {
 	case map[string]any:
-		for k, e := range x {
-			k := k
+		// in sorted order: which node a drawn index denotes must not depend on the map iteration order
+		keys := make([]string, 0, len(x))
+		for k := range x {
+			keys = append(keys, k)
+		}
+
+		sort.Strings(keys)
+
+		for _, k := range keys {
+			k, e := k, x[k]
 			collect(e, func(nv any) { x[k] = nv }, func() { delete(x, k) }, out)
+			(*out)[len(*out)-1-countBelow(e)].key = k
 		}
 	case []any:
 		for i, e := range x {
@@ -150,8 +191,31 @@ func collect(v any, set func(any), del func(), out *[]nodeRef) {
 	}
 }
 
+// countBelow: number of nodes collect() appends below (not including) v.
+func countBelow(v any) int {
+	n := 0
+
+	switch x := v.(type) {
+	case map[string]any:
+		for _, e := range x {
+			n += 1 + countBelow(e)
+		}
+	case []any:
+		for _, e := range x {
+			n += 1 + countBelow(e)
+		}
+	}
+
+	return n
+}
+
+var pathConfusions = []string{`/a/\/b`, `/\`, `/\/`, `/a/\*x/b`, `/a/\:x`, `/:`, `/*`, `/a/:/b`, `/a//b`, `/:a:b/c`, `/a/\\/b`, `/a/*`, `/a/:x*`, `/a/\`, `/a/**/b`, `/*x/y`, `//`, ``, `a`,
+	`/a/:x/:x`, `/%zz`, `/a%2Fb/:c`, "/a\u0000b"}
+
 var confusions = []any{nil, 5, -1.5, true, "", "a string", []any{}, []any{1, "x"}, []any{map[string]any{"k": "v"}}, map[string]any{}, map[string]any{"unexpected": []any{1}},
 	[]any{nil}, map[string]any{"authenticator": 5}, "{{ bad template", "/**/x", 1e30,
+	// path expressions around the escape and wildcard characters
+	`/a/\/b`, `/\`, `/\/`, `/a/\*x/b`, `/a/\:x`, `/:`, `/*`, `/a/:/b`, `/a//b`, `/:a:b/c`, `/a/\\/b`, `/a/*`, `/a/:x*`, `/a/\`,
 	// YAML mappings whose keys are not strings
 	map[any]any{1: "x"}, map[any]any{true: 1, "a": 2}, map[any]any{1.5: []any{}}, []any{map[any]any{0: map[any]any{2: 3}}}}
 
@@ -198,6 +262,25 @@ func mutateDoc(t *rapid.T, doc map[string]any) (string, int) {
 
 		nd := nodes[rapid.IntRange(1, len(nodes)-1).Draw(t, "node")]
 
+		// a quarter of the mutations goes to a path expression and keeps it a string
+		if rapid.IntRange(0, 3).Draw(t, "pathMutation") == 0 {
+			var paths []nodeRef
+
+			for _, c := range nodes {
+				if c.key == "path" {
+					paths = append(paths, c)
+				}
+			}
+
+			if len(paths) != 0 {
+				pn := paths[rapid.IntRange(0, len(paths)-1).Draw(t, "pathNode")]
+				pn.set(rapid.SampledFrom(pathConfusions).Draw(t, "pathConfusion"))
+				desc = append(desc, "path-expression")
+
+				continue
+			}
+		}
+
 		if nd.del != nil && rapid.IntRange(0, 3).Draw(t, "delete") == 0 {
 			nd.del()
 
@@ -231,9 +314,17 @@ func mutateDoc(t *rapid.T, doc map[string]any) (string, int) {
 
 func baseWorld() (*vkit.World, error) {
 	conf := vkit.DefaultConf()
-	conf.Prototypes.Authenticators = []config.Mechanism{{ID: "anon", Type: "anonymous"}}
-	conf.Prototypes.Authorizers = []config.Mechanism{{ID: "cel", Type: "cel", Config: config.MechanismConfig{"expressions": []any{map[string]any{"expression": "true"}}}}}
-	conf.Prototypes.Finalizers = []config.Mechanism{{ID: "hdr", Type: "header", Config: config.MechanismConfig{"headers": map[string]any{"X-P": "p"}}}}
+	u := remote.URL()
+	conf.Prototypes.Authenticators = []config.Mechanism{{ID: "anon", Type: "anonymous"},
+		{ID: "jwt", Type: "jwt", Config: config.MechanismConfig{"jwks_endpoint": map[string]any{"url": u + "/jwks"}, "assertions": map[string]any{"issuers": []any{u}}}},
+		{ID: "intro", Type: "oauth2_introspection", Config: config.MechanismConfig{"introspection_endpoint": map[string]any{"url": u + "/introspect"}, "assertions": map[string]any{"issuers": []any{u}}}},
+		{ID: "gen", Type: "generic", Config: config.MechanismConfig{"identity_info_endpoint": map[string]any{"url": u + "/whoami"},
+			"authentication_data_source": []any{map[string]any{"header": "X-Session"}}, "subject": map[string]any{"id": "id"}}}}
+	conf.Prototypes.Authorizers = []config.Mechanism{{ID: "cel", Type: "cel", Config: config.MechanismConfig{"expressions": []any{map[string]any{"expression": "true"}}}},
+		{ID: "remote", Type: "remote", Config: config.MechanismConfig{"endpoint": map[string]any{"url": u + "/authz"}, "payload": "x"}}}
+	conf.Prototypes.Contextualizers = []config.Mechanism{{ID: "ctx", Type: "generic", Config: config.MechanismConfig{"endpoint": map[string]any{"url": u + "/ctx"}, "payload": "x"}}}
+	conf.Prototypes.Finalizers = []config.Mechanism{{ID: "hdr", Type: "header", Config: config.MechanismConfig{"headers": map[string]any{"X-P": "p"}}},
+		{ID: "cc", Type: "oauth2_client_credentials", Config: config.MechanismConfig{"token_url": u + "/token", "client_id": "a", "client_secret": "b"}}}
 	conf.Prototypes.ErrorHandlers = []config.Mechanism{{ID: "redir", Type: "redirect", Config: config.MechanismConfig{"to": "https://x.example.com"}}}
 
 	w, err := vkit.NewWorld(vkit.WorldOpts{Conf: conf})
